@@ -26,3 +26,4 @@ PROP = {
     "assumptions": STD_ASSUME + ["at tabulated abscissae answers may differ by rounding (64 eps x the ordinate scale of both neighbouring segments), as the property states",
                                  "second and third derivatives exactly at a knot are not compared (they are discontinuous there)"],
 }
+PROP["level_text"] += ' Histories include self-assignment through a reference and copies whose source was destroyed and its memory reused.'
